@@ -45,15 +45,66 @@ def obligations():
     # every class x ovo flag constructs and stores the flag; __call__ forwards to evaluate
     for cls in ("KLGEMINI", "TVGEMINI", "HellingerGEMINI", "ChiSquareGEMINI", "MMDGEMINI", "WassersteinGEMINI"):
         for ovo in (False, True):
-            g = getattr(G, cls)(ovo=ovo)
-            seen = []
-            g.evaluate = lambda y, a, return_grad=False, _s=seen: _s.append((y, a, return_grad)) or "R"
-            r1 = g("Y", "A")
-            r2 = g("Y", "A", return_grad=True)
-            ok = g.ovo is ovo and r1 == "R" and r2 == "R" and seen == [("Y", "A", False), ("Y", "A", True)]
-            obs.append(Ob(f"{cls}(ovo={ovo}).__call__ forwards (y_pred, affinity, return_grad) to evaluate",
-                          PROVED if ok else REFUTED, "enumeration", "P", {"seen": repr(seen), "replayed": True},
-                          fn="gemclus.gemini._base_loss._GEMINI.__call__"))
+            fn_call = "gemclus.gemini._base_loss._GEMINI.__call__"
+            name = f"{cls}(ovo={ovo}).__call__ forwards (y_pred, affinity, return_grad) to evaluate"
+            # (a) with evaluate replaced by a recorder: __call__ hands its own three arguments over and returns the answer, at every
+            #     probed shape -- one sample, one cluster, more clusters than samples included
+            forwards, seen_bad = True, None
+            rs = np.random.RandomState(5)
+            probes = []
+            for n, K in ((1, 3), (1, 1), (2, 2), (3, 1), (2, 5), (6, 3)):
+                P = rs.dirichlet(np.ones(K), size=n)
+                Xp = rs.normal(size=(n, 2))
+                A = Xp @ Xp.T if cls == "MMDGEMINI" else np.sqrt(((Xp[:, None] - Xp[None]) ** 2).sum(-1))
+                probes.append((P, A))
+            for P, A in probes:
+                g = getattr(G, cls)(ovo=ovo)
+                seen = []
+                g.evaluate = lambda y, a, return_grad=False, _s=seen: _s.append((y, a, return_grad)) or "R"
+                try:
+                    r1 = g(P, A)
+                    r2 = g(P, A, return_grad=True)
+                    same = (g.ovo is ovo and r1 == "R" and r2 == "R" and len(seen) == 2 and all(c[0] is P and c[1] is A for c in seen)
+                            and [c[2] for c in seen] == [False, True])
+                except Exception as e:
+                    same, seen = False, [repr(e)]
+                if not same:
+                    forwards, seen_bad = False, {"shape": list(P.shape), "seen": repr(seen)[:300]}
+                    break
+            if forwards:
+                obs.append(Ob(name, PROVED, "enumeration", "P", {"probed shapes": [list(P.shape) for P, _ in probes], "replayed": True}, fn=fn_call))
+                continue
+            # (b) __call__ does something of its own: it may still be right. It is wrong if it disagrees, on the real code, with
+            #     evaluate (whose value is the one the contracts above tie to the definition) on the same arguments
+            bad = None
+            for P, A in probes:
+                g = getattr(G, cls)(ovo=ovo)
+                try:
+                    with np.errstate(all="ignore"):
+                        e0 = g.evaluate(P.copy(), A.copy())
+                        e1, eg = g.evaluate(P.copy(), A.copy(), return_grad=True)
+                except Exception:
+                    continue
+                try:
+                    with np.errstate(all="ignore"):
+                        c0 = g(P.copy(), A.copy())
+                        c1, cg = g(P.copy(), A.copy(), return_grad=True)
+                    # (gradients are compared along the simplex-tangent directions only: a per-row constant is immaterial, lemma L2)
+                    tang = lambda g_: np.asarray(g_, float) - np.asarray(g_, float).mean(axis=1, keepdims=True)
+                    okv = (np.allclose(np.asarray(c0, float), np.asarray(e0, float), rtol=1e-6, atol=1e-7, equal_nan=True)
+                           and np.allclose(np.asarray(c1, float), np.asarray(e1, float), rtol=1e-6, atol=1e-7, equal_nan=True)
+                           and np.shape(cg) == np.shape(eg) and np.allclose(tang(cg), tang(eg), rtol=1e-6, atol=1e-6, equal_nan=True))
+                    got = {"__call__": repr(c0), "evaluate": repr(e0)}
+                except Exception as e:
+                    okv, got = False, {"__call__ raised": repr(e), "evaluate": repr(e0)}
+                if not okv:
+                    bad = dict(got, P=P.tolist(), A=A.tolist(), replayed=True)
+                    break
+            if bad is not None:
+                obs.append(Ob(name, REFUTED, "enumeration", "P", dict(bad, recorder=seen_bad), fn=fn_call))
+            else:
+                obs.append(Ob(name, UNDECIDED, "enumeration", "P", {"why": "__call__ does not simply forward, and no probed input separates it from evaluate",
+                                                                     "recorder": seen_bad}, fn=fn_call))
     mi = G.MI()
     obs.append(Ob("MI() is KLGEMINI(ovo=False)", PROVED if isinstance(mi, G.KLGEMINI) and mi.ovo is False else REFUTED,
                   "enumeration", "P", {"replayed": True}, fn="gemclus.gemini._fdivergences.MI.__init__"))
